@@ -99,7 +99,7 @@ NOT_APPLICABLE = {
 
 
 # checks that were validated on the unchanged tree (clean long runs, determinism self-test)
-READY = {'C17', 'C18', 'C20'}
+READY = {'C17', 'C18', 'C20', 'C02', 'C05', 'C09', 'C14', 'C16'}
 
 
 def main():
